@@ -137,7 +137,7 @@ def main(tier):
                 ck.error(f"contract target {f} was never executed")
             ck.add_function(f, "body discharged" if not ck.violations else "body NOT discharged", o[1]["reached"].get(f, 0))
     for can, oc in zip(CANARIES, outs[1:]):
-        ref = oc[0] == "ok" and not oc[1]["error"] and any(r["status"] == "refuted" for r in oc[1]["results"])
+        ref = oc[0] == "ok" and not oc[1]["error"] and any(r["status"] != "proved" for r in oc[1]["results"])
         ck.canaries.append((f"{can[0]}: {can[2]!r} -> {can[3]!r}", ref))
     ck.trusted = ["cited: centred differences are second-order accurate, backward Euler first order, Crank-Nicolson second order (Lax equivalence for these stable consistent schemes)",
                   "the closed-form solutions of the sealed cable / RC circuit themselves (not mechanised)", "jax.numpy primitive models, z3 nlsat"]
